@@ -121,6 +121,7 @@ type checkResult struct {
 	obls       []*Obligation
 	funcs      []*FuncResult
 	violations []string
+	knownLines []string
 }
 
 func cmdCheck(args []string) {
@@ -277,6 +278,7 @@ func runCheck(id string, opts checkOpts) *checkResult {
 	known := loadKnownFindings()
 	nDis := 0
 	var knownLines []string
+	replayedKnown := map[string]bool{}
 	for _, o := range all {
 		if o.ok() {
 			if !o.Cover {
@@ -289,18 +291,28 @@ func runCheck(id string, opts checkOpts) *checkResult {
 		for _, k := range known {
 			if k.Prop == id && k.Obligation == name {
 				isKnown = true
-				knownLines = append(knownLines, fmt.Sprintf("KNOWN-FINDING: property=%s %s witness=%s %s", id, name, k.Witness, k.Text))
+				line := fmt.Sprintf("KNOWN-FINDING: property=%s %s witness=%s %s", id, name, k.Witness, k.Text)
+				if !replayedKnown[name] && opts.tier == "thorough" {
+					replayedKnown[name] = true
+					if out, ok := runReplayAdapter(id, o, cfg); out != "" {
+						if ok {
+							line += " [witness replayed on the real code: confirmed]"
+						} else {
+							line += " [witness replay did not reproduce]"
+						}
+					}
+				}
+				knownLines = append(knownLines, line)
 			}
 		}
 		if isKnown {
+			o.Known = true
 			continue
 		}
 		if o.Cover && strings.HasPrefix(o.Label, "return#") {
 			// reachability of return sites: compared against the pinned tree's record
 			if was, ok := coverBase[o.Name()]; ok && was == "sat" {
 				res.undecided = append(res.undecided, "vacuity guard: return site reachable on the pinned tree is now unreachable in the model: "+o.Name()+" ("+o.Pos+") ["+o.Status+"]")
-			} else if !ok && len(coverBase) == 0 && o.Status != "unsat" {
-				res.undecided = append(res.undecided, "vacuity guard undecided: "+o.Name()+" ["+o.Status+"]")
 			}
 			continue
 		}
@@ -331,12 +343,15 @@ func runCheck(id string, opts checkOpts) *checkResult {
 	for _, l := range knownLines {
 		if !seenKL[l] {
 			seenKL[l] = true
-			fmt.Println(l)
+			res.knownLines = append(res.knownLines, l)
+			if !opts.silent {
+				fmt.Println(l)
+			}
 		}
 	}
 	// a listed known finding that no longer fails is reported (not an error)
 	for _, k := range known {
-		if k.Prop != id {
+		if k.Prop != id || opts.silent {
 			continue
 		}
 		still := false
@@ -512,6 +527,10 @@ func writeEvidence(id string, cfg *PropConfig, opts checkOpts, res *checkResult,
 			covers[o.Name()] = o.Status
 			continue
 		}
+		if o.Known {
+			nProof-- // listed known finding: reported separately, not part of the proved set
+			continue
+		}
 		if !o.Bounded && o.ok() {
 			disProof++
 		}
@@ -546,6 +565,7 @@ func writeEvidence(id string, cfg *PropConfig, opts checkOpts, res *checkResult,
 			"cover_queries":            covers,
 			"engine_notes":             noteList,
 			"undecided":                res.undecided,
+			"known_findings":           res.knownLines,
 			"samples":                  samples,
 			"load_s":                   round3(prog.LoadS),
 			"explanation":              "contract-based deductive verification: obligations generated by symbolic execution of the go/ssa form of the functions under contract in /repo (built on this run), discharged by SMT solvers (unsat of the negated obligation)",
